@@ -421,6 +421,16 @@ def _(c):
             steps = [np.asarray(x.copy(form="cartesian"), dtype=float)[:3] for x in third.iter(start=d0, stop=d0 + timedelta(seconds=1200), step=timedelta(seconds=600))]
             want = [np.asarray(ref2.propagate(d0 + timedelta(seconds=600 * k)).copy(form="cartesian"), dtype=float)[:3] for k in range(3)]
             c.ensure("orbit_changed_in_place_between_calls.iter", len(steps) == 3 and all(np.linalg.norm(x - y) <= max(tol, 0.05 if prop.startswith("num") else tol) for x, y in zip(steps, want)))
+    # two iterations over the same object under way at the same time (consumed alternately): each yields what it yields alone
+    kw2 = dict(start=d0, stop=d0 + timedelta(seconds=600), step=timedelta(seconds=120))
+    alone = [(p.date._d, round(p.date._s, 6)) for p in src.iter(**kw2)]
+    both = [((a.date._d, round(a.date._s, 6)), (b.date._d, round(b.date._s, 6))) for a, b in zip(src.iter(**kw2), src.iter(**kw2))]
+    ok_il = [x for x, _ in both] == alone and [y for _, y in both] == alone
+    if prop == "ephem":
+        alone = [(p.date._d, round(p.date._s, 6)) for p in src.iter()]
+        both = [((a.date._d, round(a.date._s, 6)), (b.date._d, round(b.date._s, 6))) for a, b in zip(src.iter(), src.iter())]
+        ok_il = ok_il and len(alone) == len(src) and [x for x, _ in both] == alone and [y for _, y in both] == alone
+    c.ensure("two_iterations_at_the_same_time", ok_il)
     if before is not None:
         c.ensure("initial_orbit_untouched", bool(np.array_equal(np.asarray(src, dtype=float), before) and src.date == d0))
 
